@@ -174,6 +174,27 @@ func (o *Obl) script(produceModels bool) string {
 	b.WriteString("(declare-sort Str 0)\n(declare-sort Flt 0)\n(declare-sort U 0)\n")
 	b.WriteString("(declare-fun |flt!zero| () Flt)\n(declare-fun |u!zero| () U)\n(declare-fun |str!empty| () Str)\n")
 	b.WriteString("(declare-fun strlen (Str) Int)\n(assert (= (strlen |str!empty|) 0))\n")
+	// opaque zero arrays referenced by the script
+	zdecl := map[string]bool{}
+	for i := 0; i < o.NAsserts && i < len(c.asserts); i++ {
+		a := c.asserts[i]
+		for idx := strings.Index(a, "|zeroarr!"); idx >= 0; {
+			end := strings.Index(a[idx+1:], "|")
+			if end < 0 {
+				break
+			}
+			name := a[idx : idx+end+2]
+			if !zdecl[name] {
+				zdecl[name] = true
+				b.WriteString("(declare-fun " + name + " () " + zeroArrSorts[name] + ")\n")
+			}
+			nx := strings.Index(a[idx+end+2:], "|zeroarr!")
+			if nx < 0 {
+				break
+			}
+			idx = idx + end + 2 + nx
+		}
+	}
 	di := 0
 	for i := 0; i < o.NAsserts && i < len(c.asserts); i++ {
 		a := c.asserts[i]
@@ -274,3 +295,4 @@ func (c *Ctx) restoreGlobals(old, nh *Heap, ms *ModSet) *Heap {
 	}
 	return nh
 }
+
